@@ -84,7 +84,7 @@ def host_class(cfg):
             cls = type("P", (), {"al": alias})
         else:
             ns = {"__annotations__": {"x": Union[int, None], "child": Any, "d": Dict[str, Any], "al": Union[int, List[int], None]}, "al": alias}
-            cls = spec_class(bootstrap=True)(type("S", (), ns))
+            cls = spec_class(bootstrap=True, **({"frozen": True} if cfg.get("frozen") else {}))(type("S", (), ns))
     _CLS[key] = (cls, alias)
     return _CLS[key]
 
@@ -138,7 +138,10 @@ def realize(obj, state, segs):
         v = state[root]
         if isinstance(v, dict) and len(segs) > 1:
             v = build(v, segs[1:])
-        setattr(obj, root, v)
+        if getattr(getattr(obj, "__spec_class__", None), "frozen", False):
+            object.__getattribute__(obj, "__dict__")[root] = v  # the harness's own set-up of a frozen host
+        else:
+            setattr(obj, root, v)
 
 
 def real_target_parent(obj, segs):
@@ -192,6 +195,10 @@ def run_seq(ctx, case):
                 return ("ok", fn()), w
             except CLEAN as e:
                 return ("raise", e), w
+            except Exception as e:
+                if type(e).__name__ == "FrozenInstanceError":  # (the library's own refusal: an outcome, judged by the caller)
+                    return ("raise", e), w
+                raise
 
     def check_warn(w, i, op, alias_access=True):
         n = sum(1 for x in w if issubclass(x.category, warn_cls))
@@ -518,6 +525,12 @@ BOUNDS = {
 def configs():
     for host, dep, pt, tr, fb, shape in itertools.product(["plain", "spec"], [False, True], [False, True], [False, True], list(FALLBACKS), list(SHAPES)):
         yield {"host": host, "deprecated": dep, "passthrough": pt, "transform": tr, "fallback": fb, "shape": shape}
+    # a frozen spec host: only the copy-on-write spellings apply (and must work as on the non-frozen host)
+    for pt, tr, fb in itertools.product([False, True], [False, True], list(FALLBACKS)):
+        yield {"host": "spec", "deprecated": False, "passthrough": pt, "transform": tr, "fallback": fb, "shape": "plain", "frozen": True}
+
+
+FROZEN_LETTERS = ("read", "with_alias", "with_target", "deepcopy", "mutate_last")
 
 
 def units(tier, seed):
@@ -534,7 +547,7 @@ def units(tier, seed):
 @st.composite
 def case_strategy(draw):
     cfg = draw(st.sampled_from(list(configs())))
-    ops = draw(st.lists(st.sampled_from(LETTERS), min_size=1, max_size=30))
+    ops = draw(st.lists(st.sampled_from([l for l in LETTERS if not cfg.get("frozen") or l[0] in FROZEN_LETTERS]), min_size=1, max_size=30))
     return {"config": cfg, "ops": ops, "present": draw(st.booleans())}
 
 
@@ -556,6 +569,8 @@ def run_unit(ctx, unit):
                 letters = [l for l in letters if l[0] != "droot"]
             if cfg["fallback"] != "mut":
                 letters = [l for l in letters if l[0] != "mutate_last"]
+            if cfg.get("frozen"):
+                letters = [l for l in letters if l[0] in FROZEN_LETTERS]
             for present in (True, False):
                 for n in range(1, b["seq_len"] + 1):
                     for seq in itertools.product(letters, repeat=n):
